@@ -26,7 +26,11 @@ THEOREMS = [
 _DEFECTS = ("the pinned tree's CompoundQuery.normalize/Not.normalize are not meaning preserving on trees outside "
             "WM.Clean.clean (And drops NullQuery clauses, Not(NullQuery) becomes NullQuery, And drops clauses next to "
             "Every(field), And merges overlapping TermRanges) nor on documents holding the empty term or a term >= "
-            "U+FFFF; the full statement is refuted in Lean (not_normalize_sat_full, defect_*)")
+            "U+FFFF; the full statement is refuted in Lean (not_normalize_sat_full, defect_*).  `clean` also "
+            "excludes (clause seq-child) every Sequence/Ordered whose subqueries are changed by normalize(): the "
+            "positional part of a sequence is an abstract function of the syntactic subqueries (spans are not "
+            "modelled), so nothing is claimed there; `clean` is decidable but defined through normalizeList/flatten "
+            "(the clause lists are those CompoundQuery.normalize works on), not a purely syntactic predicate")
 PARTIAL = {
     "WM.C15.normalize_sat_partial": _DEFECTS,
     "WM.C15.normalize_answer_partial": _DEFECTS,
@@ -40,12 +44,25 @@ PARTIAL = {
                            "are not modelled), so a Sequence is only known to mean the same if its subqueries "
                            "are rebuilt identically (Not.apply forgets the boost of a Not)",
     "WM.C15.replace_absent_sat": "same hypothesis as apply_id_sat",
+    "WM.C15.total": "only the shape invariant NF is informative: `normalize : Q -> Q` is a total function with no "
+                    "exception monad, so 'never raises' is NOT a Lean statement.  It rests on (a) the model having no "
+                    "partial operation at any modelled site (the one raising site of the pinned tree, comparing "
+                    "NumericRange with TermRange bounds in RangeMixin.overlaps, is repaired by a fix: commit and "
+                    "mirrored) and (b) the check calling every rewrite on every generated tree, ill-typed "
+                    "range mixes included, and reporting any exception",
+    "WM.C15.estimate_ge": "the Reader of the model has no deleted documents (hypothesis rd.docs = env.index); with "
+                          "deletions doc_frequency only grows and doc_count is the live count, which the end-to-end "
+                          "stream checks on indexes with deletions (estimate_size >= live matches); estimate_size of "
+                          "span queries and NumericRange is not modelled (`none` resp. a placeholder)",
+    "WM.C15.idempotent": "full for the modelled classes; NestedParent/NestedChildren are not in the model (real-code "
+                         "stream only), span queries are opaque leaves",
 }
-RULE = ("random query trees (depth <= 4) over all modelled query classes with nested same-class compounds, "
-        "duplicate clauses, overlapping ranges, Null/empty clauses and Every; non-trivial = the rewrite "
-        "changed the tree (correspondence) resp. the rewritten tree differs from the original and the "
-        "original matches at least one and not all documents (end-to-end); distinct = distinct "
-        "(operation, serialized tree[, index])")
+RULE = ("random query trees (depth <= 4) over all modelled query classes incl. span queries (opaque leaves with "
+        "all constructor arguments), nested same-class compounds, duplicate clauses, overlapping ranges, Null/empty "
+        "clauses and Every; 20 % of the end-to-end trees come from QueryParser.parse(normalize=False); a third "
+        "stream runs NestedParent/NestedChildren trees on grouped indexes; non-trivial = the rewrite changed the "
+        "tree (correspondence) resp. the rewritten tree differs from the original and the original matches at least "
+        "one and not all documents (end-to-end); distinct = distinct (operation, serialized tree[, index])")
 ASSUMPTIONS = [
     "model mirrors whoosh.query rewriting code: sampled on every run (serialized result trees compared node for "
     "node), not proved",
@@ -53,8 +70,6 @@ ASSUMPTIONS = [
     "__eq__ or __hash__; hash collisions of unequal queries and the falsy-empty-compound quirk (an empty compound "
     "has len 0, so `other and ...` in __eq__ is falsy and it never equals a copy of itself) are not modelled: the "
     "generator produces no empty Sequence and no empty compound below a ConstantScoreQuery",
-    "a field is used by NumericRange or by TermRange, never both (RangeMixin.overlaps compares int with str and "
-    "raises TypeError otherwise; NumericRange is an opaque, never-merged leaf of the model)",
     "the positional part of Sequence/Ordered is an abstract parameter of the spec (spans are not modelled); the "
     "oracle tabulates it from the real search of the Sequence node",
     "FuzzyTerm/Variations/Regex/NumericRange expansions are an arbitrary term predicate in the theorems; the "
@@ -66,6 +81,18 @@ ASSUMPTIONS = [
     "indexes only",
     "docs_for_query results are restricted to live documents (InverseMatcher of the pinned tree can yield a deleted "
     "document: matcher defect, counted as a statistic)",
+    "span queries (query/spans.py) are opaque leaves of the model (canonical text of class, every constructor "
+    "argument and subqueries; field() as SpanQuery/WrappingSpan define it): normalize/simplify/with_boost leave "
+    "them alone, apply-based rewrites must rebuild them identically; the oracle tabulates their match set from "
+    "the real search of the leaf; their estimate_size is not modelled; subqueries of generated span queries "
+    "contain no Not (Not.apply resets the boost)",
+    "NestedParent/NestedChildren (query/nested.py) are not in the Lean model: a separate real-code stream on "
+    "grouped indexes checks that every rewrite neither raises nor changes the match set nor loses a constructor "
+    "argument, and estimate_size >= count",
+    "for &, |, - the expected answer is set algebra on the two answers, and a case is only judged if the "
+    "un-normalized And/Or of the operands follows set algebra itself (nested and span matchers break the matcher "
+    "contract in some combinations: property C01/C11); searches that raise inside whoosh/matching or do not "
+    "return within 5 s are counted, not judged",
     "documents: fields f, g whitespace-tokenised with positions, k one token (ID), n NUMERIC; boosts are dyadic "
     "floats, so products and max are exact",
 ]
@@ -87,7 +114,9 @@ MANIFEST = {
                   "(docs_for_query before/after every rewrite on generated multi-segment indexes with deletions, "
                   "Lean `sat` as oracle, failing inputs minimised and classified by the violated clause of "
                   "WM.Clean).",
-    "level_note": "Partial theorems: normalize_sat/ops/simplify carry the hypothesis WM.Clean.clean(S) and "
+    "level_note": "Query classes: every class of whoosh.query is modelled except NestedParent/NestedChildren "
+                  "(real-code stream only) and ColumnQuery; span queries are opaque leaves; copy/pickle are checked "
+                  "on real objects only.  Partial theorems: normalize_sat/ops/simplify carry the hypothesis WM.Clean.clean(S) and "
                   "Doc.Plain because the pinned tree (with its test-suite) is not meaning preserving there "
                   "(findings/C15.json); apply_id/replace_absent assume no Not below a Sequence (spans not "
                   "modelled).  Trusted: Lean kernel, the hand-written model (sampled), CPython re/fnmatch/copy/"
@@ -118,6 +147,7 @@ def _rewrites(rng, q, q2, reader):
         ("boost", lambda: q.with_boost(b), b),
         ("replace", lambda: q.replace(fld, ABSENT, u"a"), fld),
         ("accept", lambda: q.accept(lambda x: x), None),
+        ("apply", lambda: q.apply(lambda x: x), None),
         ("copy", lambda: copy.deepcopy(q), None),
         ("pickle", lambda: pickle.loads(pickle.dumps(q, 2)), None),
     ]
@@ -134,6 +164,8 @@ def _model_request(name, qs, q2s_, arg):
         return "c15 replace %d %s %s %s" % (G.FIELDS[arg], G.t2s(ABSENT), G.t2s(u"a"), qs)
     if name == "accept":
         return "c15 accept %s" % qs
+    if name == "apply":
+        return "c15 applyid %s" % qs
     return None  # copy / pickle: structural identity, checked on the real objects only
 
 
@@ -264,7 +296,7 @@ def _collect_rows(trees, searcher, docs, live):
     """multi and seq rows for all parsed trees; returns (multirows, seqrows, unsearchable set of
     unparsed seq nodes)"""
     reader = searcher.reader()
-    mrows, srows, bad = {}, {}, set()
+    mrows, srows, orows, bad = {}, {}, {}, set()
     for x in trees:
         for node in G.walk(x):
             if node == "null":
@@ -284,7 +316,16 @@ def _collect_rows(trees, searcher, docs, live):
                                                               " ".join(str(i) for i in ds))
                     except Exception:  # noqa
                         bad.add(key)
-    return list(mrows.values()), list(srows.values()), bad
+            elif node[0] == "opq":
+                # span query: the oracle's `opq` predicate is the real search of the leaf itself
+                key = G.unparse(node[:3])
+                if key not in orows and key not in bad:
+                    try:
+                        ds = G.docs_of(searcher, G.s2q(node))
+                        orows[key] = "(%s (%s))" % (G.unparse(node[2]), " ".join(str(i) for i in ds))
+                    except Exception:  # noqa
+                        bad.add(key)
+    return list(mrows.values()), list(srows.values()) , list(orows.values()), bad
 
 
 def _reader_text(reader, docs, live):
@@ -300,7 +341,8 @@ def _reader_text(reader, docs, live):
 
 
 def _has_kind3(x):
-    return any(n != "null" and n[0] == "multi" and n[1] == "3" for n in G.walk(x))
+    """NumericRange or span query somewhere: simplify/estimate_size of these are not modelled"""
+    return any(n != "null" and ((n[0] == "multi" and n[1] == "3") or n[0] == "opq") for n in G.walk(x))
 
 
 def _compose_real(op, q, q2):
@@ -329,6 +371,8 @@ def _raised_in_matcher(tb):
 def _try_docs(searcher, q):
     try:
         return G.docs_of(searcher, q), None
+    except G.SearchTimeout:
+        return None, "matcher:SearchTimeout"
     except Exception as e:  # noqa
         where = "matcher:" if _raised_in_matcher(e.__traceback__) else ""
         return None, where + _excname(e)
@@ -392,10 +436,18 @@ def _e2e_worker(job):
                 finally:
                     _reset_null()
                 if name in ("and", "or", "sub"):
-                    if dq is None or dq2 is None or _try_docs(s, _compose_real(name, q, q2))[0] is None:
+                    if dq is None or dq2 is None:
                         continue
                     a, b = set(dq), set(dq2)
                     exp = sorted(a & b if name == "and" else a | b if name == "or" else a - b)
+                    dcomp = _try_docs(s, _compose_real(name, q, q2))[0]
+                    if dcomp is None:
+                        continue
+                    if dcomp != exp:
+                        # the un-normalized And/Or itself does not follow set algebra on this index: a
+                        # matcher defect (property C01), nothing can be said about the rewrite
+                        stat("matcher-combination-differs-from-set-algebra(C01)")
+                        continue
                 else:
                     if dq is None:
                         continue
@@ -429,10 +481,10 @@ def _e2e_worker(job):
                     ests.append((qs, "err"))
                 except Exception as e:  # noqa
                     stat("estimate:raises:" + _excname(e))
-        mrows, srows, bad = _collect_rows(trees.values(), s, docs, live)
-        env = G.env_text(docs, live, mrows, srows)
+        mrows, srows, orows, bad = _collect_rows(trees.values(), s, docs, live)
+        env = G.env_text(docs, live, mrows, srows, orows)
         order = [t for t in trees if not any(G.unparse(n[:5]) in bad for n in G.walk(trees[t])
-                                               if n != "null" and n[0] in ("seq", "multi"))]
+                                               if n != "null" and n[0] in ("seq", "multi", "opq"))]
         if len(order) < len(trees):
             stat("spec-skipped:unsearchable-sequence-or-ambiguous-fuzzy(C19)", len(trees) - len(order))
         rtxt = _reader_text(reader, docs, live)
@@ -501,6 +553,164 @@ def _e2e_worker(job):
 
 
 # ------------------------------------------------------------------------------------------------
+# stream 3: nested queries (query/nested.py) on grouped indexes; real code only: the rewrites must not
+# raise, must keep the match set and must keep every constructor argument
+
+def _nested_params(x):
+    """(tag, constructor arguments other than the two subqueries) of every nested node, in preorder"""
+    return [(n[0],) + tuple(n[3:]) for n in G.walk(x) if n != "null" and n[0] in ("nestedparent", "nestedchildren")]
+
+
+def _nested_worker(job):
+    seed, nq = job
+    from whoosh import fields, query as Q
+    from whoosh.analysis import SpaceSeparatedTokenizer
+    from whoosh.filedb.filestore import RamStorage
+    from whoosh.query import nested as NS
+    rng = random.Random(seed)
+    out = {"cases": [], "stats": {}, "div": [], "viol": [], "samples": [], "failing": []}
+
+    def stat(k, c=1):
+        out["stats"][k] = out["stats"].get(k, 0) + c
+    schema = fields.Schema(id=fields.STORED, kind=fields.ID,
+                           t=fields.TEXT(analyzer=SpaceSeparatedTokenizer(), phrase=True),
+                           u=fields.TEXT(analyzer=SpaceSeparatedTokenizer(), phrase=True))
+    G._IXCOUNT += 1
+    ix = RamStorage().create_index(schema, indexname="c15n%dn%d" % (os.getpid(), G._IXCOUNT))
+    words = G.ALPHA[:6]
+    docs = []
+    nseg = rng.choice([1, 1, 2])
+    for _ in range(nseg):
+        w = ix.writer()
+        for _ in range(rng.randint(1, 4)):
+            w.start_group()
+            d = {"id": len(docs), "kind": u"p", "u": " ".join(rng.choice(words) for _ in range(rng.randint(1, 3)))}
+            docs.append(d)
+            w.add_document(**d)
+            for _ in range(rng.randint(0, 3)):
+                d = {"id": len(docs), "kind": u"c", "t": " ".join(rng.choice(words) for _ in range(rng.randint(1, 3)))}
+                docs.append(d)
+                w.add_document(**d)
+            w.end_group()
+        w.commit(merge=False)
+    parents = Q.Term("kind", u"p")
+
+    def simple(fld):
+        r = rng.random()
+        if r < 0.5:
+            return Q.Term(fld, rng.choice(words), boost=rng.choice(G.BOOSTS))
+        if r < 0.7:
+            return Q.Or([Q.Term(fld, rng.choice(words)), Q.Term(fld, rng.choice(words))])
+        if r < 0.8:
+            return Q.And([Q.Term(fld, rng.choice(words)), Q.Term(fld, rng.choice(words))])
+        if r < 0.9:
+            return Q.Prefix(fld, rng.choice(["a", "b", "c"]))
+        return Q.Phrase(fld, [rng.choice(words), rng.choice(words)], slop=rng.randint(1, 2))
+
+    def nested():
+        if rng.random() < 0.5:
+            return NS.NestedParent(parents, simple("t"), per_parent_limit=rng.choice([None, 1, 2]),
+                                   score_fn=rng.choice([sum, max])), "t"
+        return NS.NestedChildren(parents, simple("u"), boost=rng.choice(G.BOOSTS)), "u"
+
+    def wrapped():
+        x, fld = nested()
+        r = rng.randrange(9)
+        other = Q.Term(rng.choice("tu"), rng.choice(words))
+        if r == 0:
+            return x
+        if r == 1:
+            return Q.Or([x, other], boost=rng.choice(G.BOOSTS))
+        if r == 2:
+            return Q.Or([Q.Every(fld), x])       # field(): the nested query must not be absorbed
+        if r == 3:
+            return Q.And([x, Q.Term("kind", rng.choice([u"p", u"c"]))])
+        if r == 4:
+            return Q.Not(x)
+        if r == 5:
+            return Q.AndNot(x, other)
+        if r == 6:
+            return Q.Or([Q.Or([x, other], boost=2.0), nested()[0]])
+        if r == 7:
+            return Q.DisjunctionMax([other, x])
+        return Q.AndMaybe(x, other)
+    with ix.searcher() as s:
+        reader = s.reader()
+        for _ in range(nq):
+            q = wrapped()
+            q2 = rng.choice([Q.Term("kind", u"c"), Q.Term("t", rng.choice(words)), Q.Term("u", rng.choice(words))])
+            qs, q2s_ = G.q2s(q), G.q2s(q2)
+            try:
+                dq, dq2 = set(G.docs_of(s, q)), set(G.docs_of(s, q2))
+            except (Exception, G.SearchTimeout) as e:  # noqa
+                stat("original-unsearchable:" + _excname(e))
+                continue
+            b = rng.choice([2.0, 0.5, 4.0])
+            rewrites = [
+                ("normalize", lambda: q.normalize()), ("boost", lambda: q.with_boost(b)),
+                ("replace", lambda: q.replace("t", ABSENT, u"a")), ("accept", lambda: q.accept(lambda x: x)),
+                ("apply", lambda: q.apply(lambda x: x)), ("copy", lambda: copy.deepcopy(q)),
+                ("pickle", lambda: pickle.loads(pickle.dumps(q, 2))), ("simplify", lambda: q.simplify(reader)),
+                ("and", lambda: q & q2), ("or", lambda: q | q2), ("sub", lambda: q - q2)]
+            for name, fn in rewrites:
+                case = {"op": name, "q": qs, "q2": q2s_, "docs": docs, "stream": "nested"}
+                try:
+                    res = fn()
+                    rs = G.q2s(res)
+                    obs = set(G.docs_of(s, res))
+                except G.Unserializable:
+                    stat("rewritten-unserializable:" + name)
+                    continue
+                except G.SearchTimeout:
+                    stat("rewritten-search-hangs-in-matcher")
+                    continue
+                except Exception as e:  # noqa
+                    if _raised_in_matcher(e.__traceback__):
+                        stat("rewritten-search-raises-in-matcher:" + _excname(e))
+                        continue
+                    out["viol"].append(("nested:%s:raises:%s" % (name, _excname(e)), case, "a query", _excname(e),
+                                        "rewriting a tree with a NestedParent/NestedChildren node raised"))
+                    continue
+                finally:
+                    _reset_null()
+                exp = dq & dq2 if name == "and" else dq | dq2 if name == "or" else dq - dq2 if name == "sub" else dq
+                if name in ("and", "or", "sub"):
+                    try:
+                        dcomp = set(G.docs_of(s, _compose_real(name, q, q2)))
+                    except (Exception, G.SearchTimeout):  # noqa
+                        dcomp = None
+                    if dcomp != exp:
+                        stat("matcher-combination-differs-from-set-algebra(C01)")
+                        continue
+                out["cases"].append((("nested", name, qs, q2s_, seed), rs != qs and 0 < len(exp) < len(docs)))
+                stat("nested:" + name)
+                if obs != exp:
+                    out["viol"].append(("nested:%s:changes-matching-documents" % name, dict(case, rewritten=rs),
+                                        sorted(exp), sorted(obs),
+                                        "docs_for_query differs between the query and its rewrite"))
+                if name in ("and", "or", "sub"):
+                    continue
+                a, c = _nested_params(G.parse1(qs)), _nested_params(G.parse1(rs))
+                if name in ("replace", "accept", "apply", "copy", "pickle"):
+                    lost = rs != qs
+                else:
+                    lost = len(a) == len(c) and a != c
+                if lost:
+                    out["viol"].append(("nested:%s:constructor-argument-lost" % name, dict(case, rewritten=rs), qs, rs,
+                                        "a constructor argument of a nested query did not survive the rewrite"))
+            try:
+                est = q.estimate_size(reader)
+                stat("nested:estimate")
+                if est < len(dq):
+                    out["viol"].append(("nested:estimate_size:below-true-count", {"op": "estimate", "q": qs, "docs": docs,
+                                                                              "stream": "nested"},
+                                        len(dq), est, "estimate_size() below the number of matching documents"))
+            except Exception as e:  # noqa
+                stat("nested:estimate-raises:" + _excname(e))
+    return out
+
+
+# ------------------------------------------------------------------------------------------------
 # classification and shrinking of failing end-to-end cases
 
 EVAL_ERRORS = []
@@ -526,6 +736,8 @@ def _eval_case(op, qx, q2x, docs, layout):
                 dq2 = G.docs_of(s, q2)
                 a, b = set(dq), set(dq2)
                 exp = sorted(a & b if op == "and" else a | b if op == "or" else a - b)
+                if G.docs_of(s, _compose_real(op, q, q2)) != exp:
+                    return None   # matcher defect on the un-normalized tree (see _e2e_worker)
             else:
                 exp = dq
             res = table[op][0]()
@@ -556,10 +768,10 @@ def _eval_case_spec(op, qx, q2x, docs, layout):
             res = table[op][0]()
             rs = G.q2s(res)
             trees = [qx, q2x, G.parse1(rs)]
-            mrows, srows, bad = _collect_rows(trees, s, docs, live)
+            mrows, srows, orows, bad = _collect_rows(trees, s, docs, live)
             if bad:
                 return None
-            env = G.env_text(docs, live, mrows, srows)
+            env = G.env_text(docs, live, mrows, srows, orows)
             ans = Driver().ask(["c15 answers %s (%s %s %s)" % (env, G.unparse(qx), G.unparse(q2x), rs)])[0]
             a, b, c = [sorted(int(v) for v in x) for x in parse_sexp(ans)[0]]
             if op in ("and", "or", "sub"):
@@ -642,6 +854,8 @@ def _shrink(fail):
     r = ev(op, qx, q2x, docs, layout)
     small = {"op": op, "q": G.unparse(qx), "q2": G.unparse(q2x), "docs": docs, "layout": layout,
              "expected": r[0], "observed": r[1], "rewritten": r[2], "by": fail.get("by", "search")}
+    if "(opq " in small["q"] or "(opq " in (small["rewritten"] or ""):
+        small["readable"] = {"q": G.pretty(small["q"]), "rewritten": G.pretty(small["rewritten"] or "")}
     if EVAL_ERRORS:
         small["evaluation_errors_while_shrinking"] = sorted(set(EVAL_ERRORS))[:5]
         del EVAL_ERRORS[:]
@@ -740,8 +954,8 @@ def _tags_of(driver, small):
                 cs = G.children(x)
                 return G.with_children(x, [nr(c) for c in cs]) if cs else x
             tree = nr(G.parse1(small["q"]))
-            mrows, srows, _ = _collect_rows([tree], s, docs, live)
-            env = G.env_text(docs, live, mrows, srows)
+            mrows, srows, orows, _ = _collect_rows([tree], s, docs, live)
+            env = G.env_text(docs, live, mrows, srows, orows)
             rtxt = _reader_text(reader, docs, live)
         ans = driver.ask(["c15 sdefects %s %s %s" % (env, rtxt, G.unparse(tree))])[0]
     elif op in ("normalize", "and", "or", "sub"):
@@ -768,6 +982,14 @@ def _classify(driver, small):
     if tags == ["and-null", "not-null"]:
         # `x - Not(NullQuery)` = And([x, Not(Not(NullQuery))]): both Null rules are needed
         return SIGNATURES["not-null"] + "+" + SIGNATURES["and-null"]
+    if len(tags) > 1 and all(t in SIGNATURES for t in tags) and op in ("normalize", "and", "or", "sub"):
+        # the minimised tree still violates several recorded clauses at once.  It is attributed to them
+        # only if the real rewritten tree is exactly what the model computes: then no unmodelled
+        # behaviour is involved, and the model changes the meaning of unclean trees only
+        # (WM.C15.normalize_sat_partial), for which every clause is a recorded finding.
+        req = ("c15 norm %s" % small["q"]) if op == "normalize" else ("c15 op %s %s %s" % (op, small["q"], small["q2"]))
+        if driver.ask([req])[0] == small.get("rewritten"):
+            return "CompoundQuery.normalize:several-recorded-defects-in-one-tree"
     if not tags:
         odd = _odd_terms(small["docs"])
         if len(odd) == 1:
@@ -810,9 +1032,9 @@ def run(ctx):
                 _replay_record(ctx, rec, report=True)
     # stream 1
     rng = ctx.rng("corr")
-    njobs = ctx.budget(32, 256)
-    per = ctx.budget(120, 400)
-    jobs = [("%s:%d" % (rng.random(), i), per, PROFILES[i % 2]) for i in range(njobs)]
+    njobs = ctx.budget(28, 200)
+    per = 120 if ctx.tier == "quick" else 400   # (ctx.budget scales with ctx.boost: scale one factor only)
+    jobs = [("%s:%d" % (rng.random(), i), per, dict(PROFILES[i % 2], illtyped=True)) for i in range(njobs)]
     for out in ctx.pmap(_corr_worker, jobs):
         _merge(ctx, out, "corr")
     changed = ctx.stats.get("corr:changed:normalize", 0)
@@ -822,13 +1044,19 @@ def run(ctx):
                          % (changed, ctx.stats.get("corr:op:normalize", 0)))
     # stream 2
     rng = ctx.rng("e2e")
-    njobs = ctx.budget(80, 1200)
-    per = ctx.budget(12, 16)
+    njobs = ctx.budget(64, 800)
+    per = 12 if ctx.tier == "quick" else 16
     jobs = [("%s:%d" % (rng.random(), i), per, PROFILES[i % 3]) for i in range(njobs)]
     failing = []
     for out in ctx.pmap(_e2e_worker, jobs):
         _merge(ctx, out, "e2e")
         failing.extend(out["failing"])
+    # stream 3
+    rng = ctx.rng("nested")
+    njobs = ctx.budget(24, 240)
+    jobs = [("%s:%d" % (rng.random(), i), 6 if ctx.tier == "quick" else 10) for i in range(njobs)]
+    for out in ctx.pmap(_nested_worker, jobs):
+        _merge(ctx, out, "nested")
     _post(ctx, failing)
 
 
@@ -839,7 +1067,7 @@ def _post(ctx, failing):
     fjobs = []
     for i, dv in enumerate(ctx.divergences[:50]):
         c = dv["case"]
-        if isinstance(c, dict) and c.get("op") in ("normalize", "and", "or", "sub", "boost", "replace", "accept",
+        if isinstance(c, dict) and c.get("op") in ("normalize", "and", "or", "sub", "boost", "replace", "accept", "apply",
                                                       "simplify"):
             fjobs.append((c["op"], c["q"], c.get("q2", "null"), "%s:%d" % (ctx.seed, i)))
     if fjobs:
@@ -938,10 +1166,10 @@ def _replay_record(ctx, rec, report=False):
 def replay(ctx, rec):
     case = rec.get("case", rec)
     failed, sig, exp, obs, small = _run_record(case)
-    print("operation:", case["op"], " query:", case["q"], " second operand:", case.get("q2", "null"))
+    print("operation:", case["op"], " query:", G.pretty(case["q"]), " second operand:", G.pretty(case.get("q2", "null")))
     if small:
         print("documents:", small["docs"], "layout:", small["layout"])
-        print("rewritten tree:", small["rewritten"])
+        print("rewritten tree:", G.pretty(small["rewritten"]))
     print("expected:", exp)
     print("observed:", obs)
     return bool(failed)
